@@ -526,6 +526,88 @@ def loglevel_problems(prog: Program, scope: Dict[str, FuncInfo]) -> Tuple[int, L
     return n, out
 
 
+
+# --------------------------------------------------------------------------------------------------------------------
+# TOTAL-STRIPSET, TOTAL-SHARED
+# --------------------------------------------------------------------------------------------------------------------
+
+def stripset_problems(prog: Program, scope: Dict[str, FuncInfo]) -> Tuple[int, List[Tuple[FuncInfo, int, str, str]]]:
+    """`s.endswith(x)` … `s.rstrip(x)` (startswith / lstrip): the test speaks of x as a SUFFIX, the strip treats it as a SET OF
+    CHARACTERS and keeps removing trailing characters that occur anywhere in x — two beliefs about x in one function, one is wrong."""
+    n = 0
+    out: List[Tuple[FuncInfo, int, str, str]] = []
+    pairs = {'rstrip': 'endswith', 'lstrip': 'startswith'}
+    for q, f in sorted(scope.items()):
+        tests = {}
+        for x in walk_own(f.node):
+            if isinstance(x, ast.Call) and isinstance(x.func, ast.Attribute) and x.func.attr in ('endswith', 'startswith') and len(x.args) == 1 \
+                    and isinstance(x.args[0], ast.Name):
+                tests[(x.func.attr, norm(x.func.value), x.args[0].id)] = x
+        for x in walk_own(f.node):
+            if isinstance(x, ast.Call) and isinstance(x.func, ast.Attribute) and x.func.attr in pairs and len(x.args) == 1 and isinstance(x.args[0], ast.Name):
+                n += 1
+                key = (pairs[x.func.attr], norm(x.func.value), x.args[0].id)
+                if key in tests:
+                    out.append((f, x.lineno, f'`{norm(x)}` after `{norm(tests[key])}`',
+                                f'`{norm(tests[key])}` tests `{x.args[0].id}` as a {"suffix" if x.func.attr == "rstrip" else "prefix"}, but `{norm(x)}` strips every '
+                                f'{"trailing" if x.func.attr == "rstrip" else "leading"} character that occurs in `{x.args[0].id}`: after the affix is gone it goes on eating '
+                                f'characters of what remains (\'/rpc/api\'.rstrip(\'/openapi.json\') == \'/r\'), so {short(q)} returns another string than the one with the affix removed'))
+    return n, out
+
+
+def shared_class_state_problems(prog: Program, scope: Dict[str, FuncInfo]) -> Tuple[int, List[Tuple[FuncInfo, int, str, str]]]:
+    """A mutable display bound at class level (`_endpoints: Dict = {}`) that methods fill through `self` (`self._endpoints[k] = v`,
+    `.append`, `.update`, …) without `__init__` ever rebinding it per instance is ONE object shared by every instance of the class:
+    what one instance registers, every other instance sees.  (Names in capitals and dunder names are deliberate class-wide tables.)"""
+    classes: Dict[str, ClassInfo] = {}
+    for f in scope.values():
+        if f.cls is not None:
+            classes[f.cls.qualname] = f.cls
+    n = 0
+    out: List[Tuple[FuncInfo, int, str, str]] = []
+    mutators = {'append', 'extend', 'insert', 'add', 'update', 'setdefault', 'pop', 'remove', 'clear', 'popitem', 'discard', 'appendleft'}
+    for cq, ci in sorted(classes.items()):
+        shared = {}
+        for st in ci.node.body:
+            tg = st.targets[0] if isinstance(st, ast.Assign) and len(st.targets) == 1 else st.target if isinstance(st, ast.AnnAssign) else None
+            v = getattr(st, 'value', None)
+            if isinstance(tg, ast.Name) and v is not None and not tg.id.isupper() and not (tg.id.startswith('__') and tg.id.endswith('__')):
+                if isinstance(v, (ast.Dict, ast.List, ast.Set)) or isinstance(v, ast.Call) and dotted(v.func) in ('dict', 'list', 'set', 'collections.defaultdict', 'defaultdict', 'collections.OrderedDict', 'OrderedDict', 'collections.deque', 'deque'):
+                    shared[tg.id] = st
+        if not shared:
+            continue
+        family = [c for c in prog.mro(ci) if isinstance(c, ClassInfo)] + prog.subclasses(ci, strict=True)
+        rebound = set()
+        for c in family:
+            for m in c.methods.values():
+                for x in ast.walk(m.node):
+                    if isinstance(x, ast.Attribute) and isinstance(x.ctx, ast.Store) and isinstance(x.value, ast.Name) and x.value.id in ('self',) and x.attr in shared:
+                        rebound.add(x.attr)
+        for name, st in sorted(shared.items()):
+            n += 1
+            if name in rebound:
+                continue
+            for m in ci.methods.values():
+                if m.kind in ('classmethod', 'staticmethod') or not isinstance(m.node, (ast.FunctionDef, ast.AsyncFunctionDef)) or not m.node.args.args:
+                    continue
+                me = m.node.args.args[0].arg
+                hit = None
+                for x in ast.walk(m.node):
+                    if isinstance(x, ast.Subscript) and isinstance(x.ctx, (ast.Store, ast.Del)) and dotted(x.value) == f'{me}.{name}':
+                        hit = x
+                    elif isinstance(x, ast.Call) and isinstance(x.func, ast.Attribute) and x.func.attr in mutators and dotted(x.func.value) == f'{me}.{name}':
+                        hit = x
+                    elif isinstance(x, ast.AugAssign) and dotted(x.target) == f'{me}.{name}':
+                        hit = x
+                if hit is not None:
+                    out.append((m, hit.lineno, f'`{me}.{name}` is the class-level `{name}` shared by all instances',
+                                f'`{norm(hit)[:70]}` in {short(m.qualname)} fills `{name}`, which is bound once at class level (`{norm(st)[:50]}`) and never '
+                                f'rebound per instance: every {ci.name} object reads and writes the same container, so what one instance registers '
+                                f'(endpoints, routes, handlers) is served by — or overwrites — another'))
+                    break
+    return n, out
+
+
 # --------------------------------------------------------------------------------------------------------------------
 
 def totality(ck: Check, prog: Program, extra: Iterable[str] = ()) -> None:
@@ -536,7 +618,9 @@ def totality(ck: Check, prog: Program, extra: Iterable[str] = ()) -> None:
     for rule, fn, what in (('TOTAL-RETURN', return_problems, 'functions with a None-free declared return type never return None where the value is used'),
                            ('TOTAL-ATTR', attr_problems, 'classes: every attribute read on self is bound by the class family'),
                            ('TOTAL-ISINST', isinstance_problems, 'isinstance / issubclass calls have the value first and the class second'),
-                           ('TOTAL-LOGLEVEL', loglevel_problems, 'Logger.log calls have the level (not the message) first')):
+                           ('TOTAL-LOGLEVEL', loglevel_problems, 'Logger.log calls have the level (not the message) first'),
+                           ('TOTAL-STRIPSET', stripset_problems, 'str.rstrip / lstrip calls with a variable argument do not stand for affix removal'),
+                           ('TOTAL-SHARED', shared_class_state_problems, 'class-level mutable containers are rebound per instance before being filled through self')):
         n, problems = fn(prog, scope)
         ck.ob(rule, f'{n} {what} (scope: {len(scope)} functions reached from the analysed ones)', not problems, nontrivial=n > 0)
         for f, line, construct, msg in problems:
